@@ -2025,17 +2025,34 @@ where
     where
         W: Write,
     {
-        // prepare data set writer
-        let mut dset_writer =
-            DataSetWriter::with_ts_cs_options(to, ts, cs, options).context(CreatePrinterSnafu)?;
         let required_options = IntoTokensOptions::new(self.charset_changed);
 
-        // write object
-        dset_writer
-            .write_sequence(self.into_tokens_with_options(required_options))
-            .context(PrintDataSetSnafu)?;
+        if let Codec::Dataset(Some(adapter)) = ts.codec() {
+            // the data set needs to go through an adapter
+            // (e.g. Deflated Explicit VR Little Endian)
+            let adapter = adapter.adapt_writer(Box::new(to));
+            // prepare data set writer
+            let mut dset_writer = DataSetWriter::with_ts_cs_options(adapter, ts, cs, options)
+                .context(CreatePrinterSnafu)?;
 
-        Ok(())
+            // write object
+            dset_writer
+                .write_sequence(self.into_tokens_with_options(required_options))
+                .context(PrintDataSetSnafu)?;
+
+            Ok(())
+        } else {
+            // prepare data set writer
+            let mut dset_writer = DataSetWriter::with_ts_cs_options(to, ts, cs, options)
+                .context(CreatePrinterSnafu)?;
+
+            // write object
+            dset_writer
+                .write_sequence(self.into_tokens_with_options(required_options))
+                .context(PrintDataSetSnafu)?;
+
+            Ok(())
+        }
     }
 
     /// Write this object's data set into the given writer,
